@@ -127,6 +127,8 @@ def rnd_beh(rng, allow_none=True):
     r = rng.random()
     if r < 0.15 and allow_none:
         return ["none"]
+    if r < 0.21:
+        return ["const", "0/1"]          # "give everything up": an answer of exactly 0 is an answer
     if r < 0.3:
         return ["const", fr(rnd_amount(rng))]
     if r < 0.45:
@@ -258,7 +260,7 @@ def gen_stepwise(rng):
         else:
             ops.append(["demand", fr(rnd_amount(rng))])
     probes = sorted(set([F(0), -EPS, F(-3)] + [t + e for t in allts for e in (-EPS, 0, EPS)]))
-    return {"kind": "stepwise", "base": base, "rules": rules, "itv": fr(itv), "table": table,
+    return {"kind": "stepwise", "skeleton": rng.choice([None, None, "late", "early", "early"]), "base": base, "rules": rules, "itv": fr(itv), "table": table,
             "pool": [fr(rnd_supply()), fr(rnd_amount(rng)), fr(rnd_fit(rng)), fr(rnd_fit(rng))],
             "ops": ops, "probes": [fr(p) for p in probes]}
 
@@ -546,7 +548,22 @@ def build(case, pool, log):
                                             high_scale=hs, interval=itv)
         elif kind == "stepwise":
             rl = [(num(t), rule_obj(i)) for t, i in case["rules"]]
-            ctrl = Stepwise(pool, rule_obj(case["base"]), *rl, interval=num(case["itv"]))
+            if case.get("skeleton") and len({t for t, _ in rl}) == len(rl):
+                # the documented way: a @stepwise skeleton that collects rules with .add; controllers may be made from
+                # it at any time (here: one before the last rules are added) - each gets the rules known by then
+                from cobald.controller.stepwise import stepwise
+                skel = stepwise(rule_obj(case["base"]))
+                k = len(rl) // 2
+                for t, r in rl[:k]:
+                    skel.add(r, supply=t)
+                if case["skeleton"] == "early":
+                    skel(_mk_pool([], ["0/1", "0/1", "0/1", "0/1"]))
+                    skel.s()
+                for t, r in rl[k:]:
+                    skel.add(r, supply=t)
+                ctrl = skel(pool, interval=num(case["itv"]))
+            else:
+                ctrl = Stepwise(pool, rule_obj(case["base"]), *rl, interval=num(case["itv"]))
             info["selector"] = RangeSelector(rule_obj(case["base"]), *rl)
         elif kind == "switch":
             other = _mk_pool([], ["0/1", "0/1", "0/1", "0/1"])
